@@ -744,7 +744,7 @@ def fam_pytop(rng):
                 ['and', call('call', A('q'), V('X')), call('call', A('q'), V('Y'))]][k - 4]
         cl = cl + [['t', [V('X'), V('Y')], body]]
         query = ['t', [V('Q0'), V('Q1')]]
-    return {'family': 'py-top', 'clauses': cl, 'query': query, 'fpl': 3, 'tdepth': 3, 'maxdelta': 200, 'need': 4,
+    return {'family': 'py-top', 'clauses': cl, 'query': query, 'fpl': 3, 'tdepth': 3, 'maxdelta': 200, 'need': 4, 'praise': 0.6,
             'native': [nspec(rng, 'q', 1, rng.choice([None, None, None, 1, 3]), pclean=0.7)], 'dyn': c20.dyn_terms([['q', [A('dyn')]]]) if rng.random() < 0.3 else []}
 
 def fam_python(rng):
@@ -869,7 +869,7 @@ def decorate(rng, c):
     r = rng.random()
     c['raise'] = None
     c['nest'] = None
-    if r < 0.45:
+    if r < c.get('praise', 0.45):
         kmax = rng.choice([0, 0, 1, 2, 3, 5, 10, 40])
         c['raise'] = [rng.randrange(0, kmax + 1), rng.choice(EXC)]
     elif r < 0.58 and c['delta'] >= 14 and c['abs_limit'] is None:
@@ -877,7 +877,7 @@ def decorate(rng, c):
         c['nest'] = [rng.randrange(0, 3), rng.randrange(0, 4), rng.choice(['ok', 'ok', 'low', 'zero']), rs2]
     return c
 
-FAMILIES = [(fam_random, 5), (fam_chain, 3), (fam_countdown, 1), (fam_len, 1), (fam_leftrec, 4), (fam_infinite, 4), (fam_python, 5), (fam_meta, 5), (fam_pytop, 3)]
+FAMILIES = [(fam_random, 5), (fam_chain, 3), (fam_countdown, 1), (fam_len, 1), (fam_leftrec, 4), (fam_infinite, 4), (fam_python, 5), (fam_meta, 5), (fam_pytop, 4)]
 
 def gen(rng, tier):
     n = 290 if tier == 'quick' else 4000
@@ -949,6 +949,20 @@ def nontrivial(case, io):
 def distribution(cases, obs):
     d = {'family': {}, 'outcome': {}, 'result_vs_unbounded': {'complete': 0, 'proper prefix': 0, 'empty although answers exist': 0},
          'delta': {'<=0': 0, '1-12': 0, '13-40': 0, '41-120': 0, '>120': 0}, 'projection': {'returns': 0, 'nested': 0}, 'absolute limit (0, negative, default 200)': 0}
+    r4 = d['round 4'] = {'bound equal to or above the interpreter limit': 0, 'of these: search complete (depth between the two limits or below)': 0,
+                         'plain loop under the bound minus margin ran to its end (completeness oracle applies)': 0,
+                         'Python predicate with raising clean-up': 0, 'close() of the abandoned query raised (CleanupError came out)': 0,
+                         'Python predicate with slow clean-up': 0, 'evaluate_bounded inside a Python predicate (calls)': 0}
+    for c, o in zip(cases, obs):
+        if isinstance(o, dict) and 'outcome' in o:
+            above = c.get('abs_limit') is None and c['rl0_extra'] <= c['delta']
+            r4['bound equal to or above the interpreter limit'] += above
+            r4['of these: search complete (depth between the two limits or below)'] += bool(above and o.get('plain') and o['plain'][0] == 'done' and o['plain'][1])
+            r4['plain loop under the bound minus margin ran to its end (completeness oracle applies)'] += bool(o.get('plain') and o['plain'][0] == 'done')
+            r4['Python predicate with raising clean-up'] += any(n.get('cleanup') == 'raise' for n in c.get('native') or [])
+            r4['Python predicate with slow clean-up'] += any(n.get('cleanup') == 'slow' for n in c.get('native') or [])
+            r4['close() of the abandoned query raised (CleanupError came out)'] += o['outcome'][0] == 'raise' and o['outcome'][1].startswith('Cleanup')
+            r4['evaluate_bounded inside a Python predicate (calls)'] += len(o.get('ninner') or [])
     for c, o in zip(cases, obs):
         fam = c.get('family', '?')
         fam = 'leftrec' if fam.startswith('leftrec') else fam
